@@ -21,6 +21,10 @@ def run(ctx, prefixes):
     ok, _, _, _ = ctx.mc("H2Relay.tla", "MC_H2Relay_DropOnClose.cfg", expect_ok=False)
     if ok:
         raise vlib.Infra("H2Relay mutant DropOnClose not detected by the model")
+    ctx.mc("H2Relay.tla", "MC_H2Relay_Ack.cfg", timeout=3000)
+    ok, _, _, _ = ctx.mc("H2Relay.tla", "MC_H2Relay_AckOvertakes.cfg", expect_ok=False)
+    if ok:
+        raise vlib.Infra("H2Relay mutant AckOvertakes not detected by the model")
     ok, _, _, _ = ctx.mc("H2Relay.tla", "MC_H2Relay_WriteErrorEndsReader.cfg", expect_ok=False)
     if ok:
         raise vlib.Infra("H2Relay mutant WriteErrorEndsReader not detected by the model")
@@ -76,6 +80,9 @@ def run(ctx, prefixes):
                act("ctl", 0, t="WU", v=65535), act("ctl", 1, t="WU", v=65535)]},
         {"h": [act("headers", 1), act("headers", 3), act("data", 3, 40000), act("data", 1, 40000), act("headers", 1, es=True), act("close"),
                act("ctl", 1, t="WU", v=65535), act("ctl", 0, t="WU", v=65535), act("ctl", 3, t="WU", v=65535)]},
+        # the receiver stops reading while 64 KiB of DATA are on their way to it, lowers its initial window to 0, reads again:
+        # the acknowledgement of that SETTINGS frame comes after the DATA that was admitted before it (MC_H2Relay_AckOvertakes)
+        {"h": [act("headers", 1), act("bpause")] + [act("data", 1, 4000)] * 16 + [act("ctl", 0, t="SI", v=0), act("bresume")], "dir": "s2c"},
         # a PUSH_PROMISE whose header block is completed by a CONTINUATION frame, then the response
         {"h": [act("headers", 1), act("push_open", 1, n=2), act("cont", 1), act("headers", 1, es=True)], "dir": "s2c"},
         {"h": [act("headers", 3), act("data", 3, 100), act("push_open", 3, n=4), act("cont", 3), act("data", 3, 100, es=True)], "dir": "s2c"},
